@@ -14,6 +14,7 @@ import Driver.Threads
 import Driver.Diff
 import Driver.Codegen
 import Driver.Location
+import Driver.Paths
 open Lean Driver
 
 def dispatch (req : Json) : R Json := do
@@ -29,6 +30,7 @@ def dispatch (req : Json) : R Json := do
   | "diff" => Driver.Diff.handle req
   | "codegen" => Driver.Codegen.handle req
   | "locate" => Driver.Location.handle req
+  | "paths" => Driver.Paths.handle req
   | "guard" => Driver.Errors.handleGuard req
   | "decorate" => Driver.Errors.handleDecorate req
   | _ => throw "bad-op"
